@@ -62,10 +62,15 @@ def main():
         if has_thms:
             cat = "proof"
             text = (f"Lean 4 theorems (kernel-checked, no sorry, axioms audited each run) about a hand-written executable model: {what}. "
-                    "The model is tied to /repo's working tree on every run by a differential correspondence (structured generators, "
-                    "boundary probes, corpus of past failures; thorough tier adds small-scope exhaustion) and the implementation's own "
-                    "outputs are judged by an independent rendering of the spec; a disagreement is minimised and replayed.")
-            tech = "Lean 4 machine-checked proof about a hand-written model + differential correspondence with the Python implementation"
+                    "Every property theorem is also applied to a concrete non-degenerate instance with all hypotheses proved "
+                    "(Props/Witness). The model is tied to /repo's working tree on every run in two ways: its tables and constants (and "
+                    "complete tables of small pure functions) are re-derived from the source and re-checked by the Lean kernel "
+                    "(harness/srcfacts.py: generated theorems), and its functions and state machines by a differential correspondence "
+                    "(structured generators, boundary probes, callers that edit what they are handed, corpus of past failures; thorough "
+                    "tier adds small-scope exhaustion); the implementation's own outputs are judged by an independent rendering of the "
+                    "spec; a disagreement is minimised and replayed.")
+            tech = ("Lean 4 machine-checked proof about a hand-written model + source facts regenerated from the code and kernel-checked "
+                    "each run + differential correspondence with the Python implementation")
         else:
             cat = "other"
             text = (f"Executable Lean 4 model + spec of: {what}. In this revision the property theorems are "
@@ -98,7 +103,7 @@ def main():
                   "source_commits": [], "add_only": True},
         "engines": [{"name": "lean4-model+correspondence", "path": "lean/ + harness/ + check.py",
                      "serves_properties": claimed,
-                     "kind_free_text": "Lean 4 executable model + specs + theorems (lake build), native driver cvdriver (JSON lines), Python differential harness with spec oracles, corpus and known-findings file"}],
+                     "kind_free_text": "Lean 4 executable model + specs + theorems + non-vacuity witnesses (lake build), source facts generated from the working tree and checked by Lean on every run, native driver cvdriver (JSON lines), Python differential harness with spec oracles, corpus and known-findings file"}],
         "checks": checks,
         "not_applicable": [{"property_id": p, "reason": "check not built yet in this revision (see DESIGN.md §7)"} for p in ALL if p not in claimed],
         "notes": "All commands run with cwd=/verif; the repository under test is $CARD_UTILS_REPO (default /repo), imported from its working tree. "
